@@ -164,6 +164,29 @@ mod vx_kani_time {
     }
 }
 
+// ---- K9b (BOUNDED: the six listed instants; quick tier): the same conversion on concrete instants on both sides of every
+// boundary of the statement (1970, sub-tick fractions rounded toward the epoch, beyond i64 ticks, saturation at both ends).
+// It does not depend on the shape of the function body either, and takes seconds where K9 takes minutes.
+#[cfg(kani)]
+mod vx_kani_time_listed {
+    use crate::internal::Timestamp;
+    use std::time::{Duration, UNIX_EPOCH};
+
+    #[kani::proof]
+    #[kani::unwind(3)]
+    fn k_timestamp_listed_instants() {
+        let epoch: u64 = 116444736000000000;
+        assert!(Timestamp::from_system_time(UNIX_EPOCH).value() == epoch);
+        assert!(Timestamp::from_system_time(UNIX_EPOCH + Duration::new(1, 500_000_150)).value() == epoch + 15_000_001);
+        assert!(Timestamp::from_system_time(UNIX_EPOCH - Duration::new(1, 50)).value() == epoch - 10_000_000);
+        // beyond i64::MAX ticks (about year 40000) but still representable
+        assert!(Timestamp::from_system_time(UNIX_EPOCH + Duration::new(1_200_000_000_000, 0)).value() == epoch + 12_000_000_000_000_000_000);
+        // saturation at the upper end, and at 1601 at the lower end
+        assert!(Timestamp::from_system_time(UNIX_EPOCH + Duration::new(2_000_000_000_000, 0)).value() == u64::MAX);
+        assert!(Timestamp::from_system_time(UNIX_EPOCH - Duration::new(20_000_000_000, 0)).value() == 0);
+    }
+}
+
 // ---- K10 (BOUNDED: the listed paths): path normalisation (C09) on the real name_chain_from_path / path_from_name_chain, which the
 // Verus side only knows as the uninterpreted path_chain: "." is dropped, ".." removes the component before it and may not climb
 // above the root, a leading "/" restarts at the root, relative and absolute spellings of a path give the same chain, and the
